@@ -36,6 +36,7 @@ SHARD_TIMEOUT = {"quick": 1700, "thorough": 3400}
 
 SCEN = [
     dict(name="ns2d+cylinder", dim=2, body="cylinder"),
+    dict(name="ns2d+cylinder-tall", dim=2, body="cylinder", shape=(48, 36)),  # ny > nx (stale-padding bugs are shape specific)
     dict(name="ns2d+rod-elemcentric", dim=2, body="rod", grid="elem"),
     dict(name="ns2d+rod-edge", dim=2, body="rod", grid="edge"),
     dict(name="ns3d+sphere-greens", dim=3, body="sphere", solver="greens_function_convolution", filter=None),
@@ -47,7 +48,12 @@ SCEN = [
 
 def shards(tier, seed):
     out = []
+    perms3 = [(16, 12, 20), (20, 12, 16), (12, 20, 16), (16, 20, 12)]
     for i, sc in enumerate(SCEN):
+        if sc["dim"] == 3:
+            sc = dict(sc, shape=perms3[(i + seed) % len(perms3)])
+        elif "shape" not in sc and (i + seed) % 2 == 1:
+            sc = dict(sc, shape=(48, 36))
         dts = ["float64", "float32"] if tier == "thorough" else (["float64"] if (i + seed) % 2 == 0 else ["float32"])
         for dt in dts:
             out.append({"name": f"{sc['name']}-{dt}", "mode": "run", "scen": sc, "dtype": dt})
@@ -64,9 +70,9 @@ def build(sc, dtype, t0=0.0):
     real_t = util.DT[dtype]
     d = sc["dim"]
     if d == 2:
-        flow = sims.build(dict(kind="ns2d", shape=(36, 48), x_range=1.2, nu=5e-3, dtype=dtype, threads=2, forcing=True, free_stream=True, time=t0, width=2, rho=1.2))
+        flow = sims.build(dict(kind="ns2d", shape=tuple(sc.get("shape", (36, 48))), x_range=1.2 if sc.get("shape", (36, 48))[1] == 48 else 0.9, nu=5e-3, dtype=dtype, threads=2, forcing=True, free_stream=True, time=t0, width=2, rho=1.2))
     else:
-        flow = sims.build(dict(kind="ns3d", shape=(16, 12, 20), x_range=1.0, nu=8e-3, dtype=dtype, threads=2, forcing=True, free_stream=True, time=t0, width=2,
+        flow = sims.build(dict(kind="ns3d", shape=tuple(sc.get("shape", (16, 12, 20))), x_range=1.0, nu=8e-3, dtype=dtype, threads=2, forcing=True, free_stream=True, time=t0, width=2,
                                rho=1.1, solver=sc.get("solver", "greens_function_convolution"), filter=sc.get("filter")))
 
     class Sim(ea.BaseSystemCollection, ea.Forcing):
